@@ -275,6 +275,57 @@ def run_overwrite_case():
             pass
 
 
+def run_late_redirect_case(variant):
+    """redirects that appear between two analyses, or that exist while the classifier flags nothing new"""
+    global evaluations
+    evaluations += 1
+    with quiet_stdout():
+        ctx = Wtp(quiet=True)
+    try:
+        def classify(c, page):
+            b = page.body or ""
+            return {nm for nm in ("A", "B") if "{{%s}}" % nm in b}, "==h==" in b
+        want = set()
+        if variant == "redirect-added-after-first-analysis":
+            ctx.add_page("Template:A", 10, "x ==h==")
+            ctx.add_page("Template:B", 10, "{{A}}")
+            with quiet_stdout():
+                ctx.analyze_templates(classify)
+            ctx.add_page("Template:R", 10, None, redirect_to="Template:A")
+            want = {"Template:A", "Template:B", "Template:R"}
+        elif variant == "premarked-template-nothing-flagged":
+            ctx.add_page("Template:A", 10, "plain", need_pre_expand=True)
+            ctx.add_page("Template:R", 10, None, redirect_to="Template:A")
+            want = {"Template:A", "Template:R"}
+        else:       # premarked redirect added after the first analysis
+            ctx.add_page("Template:A", 10, "plain")
+            with quiet_stdout():
+                ctx.analyze_templates(classify)
+            ctx.add_page("Template:R", 10, None, redirect_to="Template:A", need_pre_expand=True)
+            want = {"Template:A", "Template:R"}
+        signal.alarm(10)
+        try:
+            with quiet_stdout():
+                ctx.analyze_templates(classify)
+        except Timeout:
+            fail("core:Wtp.analyze_templates#terminates", "no result within 10 s (late redirect case)", {"variant": variant}, "timeout")
+            finish()
+        finally:
+            signal.alarm(0)
+        got = {p.title for p in ctx.get_all_pages([10]) if p.need_pre_expand}
+        if got != want:
+            fail("core:Wtp.analyze_templates#marks-exactly-the-least-closed-set[redirects-without-new-marks]",
+                 f"{variant}: marked {sorted(got)} want {sorted(want)}", {"variant": variant}, "missing" if want - got else "extra")
+        distinct.add(("late-redirect", variant))
+    finally:
+        try:
+            ctx.close_db_conn()
+        except Exception:
+            pass
+
+
+for v_ in ("redirect-added-after-first-analysis", "premarked-template-nothing-flagged", "premarked-redirect-after-first-analysis"):
+    run_late_redirect_case(v_)
 run_overwrite_case()
 run_override_case(False)
 run_override_case(True)
